@@ -167,7 +167,8 @@ Print Assumptions C15_mlog_names_superseded.
 (* The mutators the theorems above reason about are the functions of the SOURCE: Model/Meta.v's expire,
    apply_retention, most_recent, by_timestamp and append_mlog are equal, for ALL inputs, to the definitions the
    translator regenerates on every run from Transaction._make_expire_mutator, SnapshotManager._apply_retention,
-   _most_recent_snapshot_id, get_snapshot_by_timestamp and MetadataManager._append_metadata_log (Gen/GenMeta.v;
+   _most_recent_snapshot_id, get_snapshot_by_timestamp, delete_snapshot (between its refresh and its commit) and
+   MetadataManager._append_metadata_log (Gen/GenMeta.v;
    statement-by-statement translation over the Python primitives of Model/MetaPy.v).  A change to one of those
    functions changes the generated term, and this theorem -- and with it the tie of every history theorem of this
    file to the code -- is re-checked against it.  (_most_recent_snapshot_id never raises: PyOk.) *)
@@ -176,10 +177,11 @@ Theorem C15_mutators_regenerated :
   /\ (forall m, gen_apply_retention m = apply_retention m)
   /\ (forall m, gen_most_recent m = PyOk (most_recent m))
   /\ (forall m t, gen_by_timestamp (snaps m) t = by_timestamp m t)
-  /\ (forall p log bu pf, gen_append_mlog p log bu pf = append_mlog p log bu pf).
+  /\ (forall p log bu pf, gen_append_mlog p log bu pf = append_mlog p log bu pf)
+  /\ (forall m id, gen_delete_snapshot m id = PyOk (delete_snapshot m id)).
 Proof.
   split; [exact gen_expire_agrees|]. split; [exact gen_apply_retention_agrees|]. split; [exact gen_most_recent_agrees|].
-  split; [exact gen_by_timestamp_agrees | exact gen_append_mlog_agrees].
+  split; [exact gen_by_timestamp_agrees|]. split; [exact gen_append_mlog_agrees | exact gen_delete_snapshot_agrees].
 Qed.
 Print Assumptions C15_mutators_regenerated.
 
